@@ -33,7 +33,31 @@ class Guards:
             if not ctors or len(dtors) != 1:
                 continue
             self.recs[name] = (rec, ctors, dtors[0])
+        # composite guards: no destructor of their own, but fields that are guards (each restores what it was constructed over)
+        self.comp = {}
+        for name, rec in prog.facts.records.items():
+            if name in self.recs:
+                continue
+            ctors = [f for f in prog.methods_of(name) if f.kind == 'ctor' and (f.d.get('inits') or f.body)]
+            if ctors and not [f for f in prog.methods_of(name) if f.kind == 'dtor' and f.body] and \
+                    any(self.base_name(f_.get('type')) in self.recs for f_ in rec.get('fields', [])):
+                self.comp[name] = (rec, ctors)
         self._sum = {}
+        self._inner = {}
+
+    @staticmethod
+    def base_name(t):
+        """record name of a (possibly instantiated) class type: template arguments and cv/ref decoration removed"""
+        t = (t or '').replace('const ', '').strip().rstrip('&').strip()
+        depth, out = 0, []
+        for ch in t:
+            if ch == '<':
+                depth += 1
+            elif ch == '>':
+                depth -= 1
+            elif depth == 0:
+                out.append(ch)
+        return ''.join(out).strip()
 
     # ---- constructor / destructor summaries -------------------------------------------------------------------
     def _loc(self, e, c, alias):
@@ -92,6 +116,28 @@ class Guards:
                             if l2:
                                 alias[fld] = l2
                 continue
+            if SX.is_node(init) and init.get('k') == 'unk' and init.get('cls') == 'ParenListExpr':
+                # a member initialiser inside a class template is kept as written (`m_saved(slot)`): read the one parameter it names
+                nm_ = (init.get('src') or '').strip()
+                nm_ = nm_[1:-1].strip() if nm_.startswith('(') and nm_.endswith(')') else nm_
+                prm_ = [q_ for q_ in ctor.params if q_.get('name') == nm_]
+                if prm_:
+                    init = {'k': 'ref', 'kind': 'param', 'id': prm_[0]['id'], 'name': nm_}
+            inner_t = self.base_name(ftypes.get(i['member'], ''))
+            if inner_t in self.recs and SX.is_node(init):
+                # a member that is itself a guard: it saves (and its destructor restores) what it is constructed over
+                ia = SX.real_args(init) if init.get('k') in ('construct', 'call') else ([init] if init.get('k') not in ('initlist',) else init.get('items', []))
+                irec, ictors, idtor = self.recs[inner_t]
+                ics = [c2 for c2 in ictors if len(c2.params) == len(ia)]
+                if len(ics) == 1 and ia:
+                    s2, sv2, al2 = self.summary(ics[0], depth + 1)
+                    rest2 = self.restores(ics[0], idtor)
+                    for (pi, path) in rest2:
+                        if pi < len(ia):
+                            l2 = self._loc(ia[pi], ctor, alias)
+                            if l2:
+                                self._inner.setdefault(key, set()).add((l2[0], tuple(l2[1] + list(path))))
+                continue
             loc = self._loc(init, ctor, alias)
             if loc is None:
                 continue
@@ -118,13 +164,17 @@ class Guards:
 
     def restores(self, ctor, dtor):
         sets, saved, alias = self.summary(ctor)
-        out = set()
+        out = set(self._inner.get(ctor.key, ()))
+        if dtor is None:
+            return out
         for n in SX.walk(dtor.body, into_lambdas=False):
             w = SX.write_target(n)
             if not w or w[2] != '=':
                 continue
             loc = self._loc(w[0], dtor, alias)
             r = _peel(w[1])
+            while SX.is_node(r) and r.get('k') == 'call' and (SX.callee(r) or '').startswith('std::move') and SX.real_args(r):
+                r = _peel(SX.real_args(r)[0])
             if loc is not None and SX.is_node(r) and r.get('k') == 'member' and SX.is_node(_peel(r.get('base'))) and _peel(r['base']).get('k') == 'this' \
                     and saved.get(r['name']) == loc:
                 out.add((loc[0], tuple(loc[1])))
@@ -139,9 +189,13 @@ class Guards:
             if v['k'] != 'var' or not SX.is_node(v.get('init')):
                 continue
             init = SX.strip(v['init'])
-            if init.get('k') != 'construct' or init.get('type') not in self.recs:
+            tname = self.base_name(init.get('type')) if init.get('k') == 'construct' else None
+            if tname is None or (tname not in self.recs and tname not in self.comp):
                 continue
-            rec, ctors, dtor = self.recs[init['type']]
+            if tname in self.recs:
+                rec, ctors, dtor = self.recs[tname]
+            else:
+                (rec, ctors), dtor = self.comp[tname], None
             args = init.get('args', [])
             cs = [c for c in ctors if (c.name == init.get('ctor') and (init.get('sig') is None or c.sig == init.get('sig')))]
             if len(cs) != 1:
